@@ -1,16 +1,17 @@
 (** PyRt.v — the small runtime library targeted by /verif/tools/translate_identify.py.
 
     The translator reads cai_causal_graph/identify_utils.py with the Python [ast] module and
-    writes IdentifyGen.v: one Gallina function per Python function, statement by statement.
+    writes IdentifyGenConf.v, IdentifyGenIM.v and IdentifyGenMB.v (one file per property): one
+    Gallina function per Python function, statement by statement.
     Everything the generated code calls is defined HERE, as ordinary total Gallina functions
     over [digraph A] and [list A].  DEFINITIONS and pinned [Example]s only (the proofs about the
-    generated code are in IdentifyGenProofs.v).
+    generated code are in IdentifyGenLemmas.v and IdentifyGen{Conf,IM,MB}Proofs.v).
 
     ** Conventions
     - A node identifier is a value of the vertex type [A] ([NodeLike] arguments are restricted
       to identifiers; [Node.identifier_from] is the identity).  [None] and the empty string
       [''] (both occur in [_verify_identify_inputs]) are two distinguished values of [A] that
-      the generated file takes as section variables [py_None] / [py_empty_str]; the theorems
+      every generated function takes as parameters [py_None] / [py_empty_str]; the theorems
       assume that the node arguments differ from [py_None] (and, where the Python code compares
       a node with [''], from [py_empty_str]).
     - A [CausalGraph] that is a DAG (the only graphs on which these functions do not raise
@@ -19,11 +20,11 @@
     - A Python [set] is a duplicate-free [list A].  Real Python iterates over a set in an order
       that depends on hashes and on the history of the object, so the order in which a set is
       ITERATED is not the list order but [py_order X k l], where [py_order : pyorder] is an
-      arbitrary function (a section variable of the generated file) and [k] numbers the place in
+      arbitrary function (a parameter of every generated function) and [k] numbers the place in
       the program text where the iteration happens.  The same oracle orders the collections that
       the library builds from sets and dictionaries ([get_children], [get_parents],
       [get_neighbors], [successors], [predecessors], [get_all_causal_paths]).  The theorems of
-      IdentifyGenProofs.v hold for EVERY oracle that returns a permutation of its argument
+      the proof files hold for EVERY oracle that returns a permutation of its argument
       ([pyorder_ok]): the computed sets do not depend on any iteration order.  Results are
       compared as sets.  A Python [list] is a [list] (its order is definite).
     - A Python object that is mutated in place ([s.add(x)], [g.remove_edge(u, v)],
